@@ -78,6 +78,15 @@ Definition cop_of (o : wcop) : cop :=
   | VMerge bs => CMerge (bits_of_bytes bs)
   end.
 
+(* a session over SEVERAL mask objects that share what NewMask precomputed:
+   object k is created by NewMask or by cloning an earlier object; mask
+   operations and aggregations are interleaved and every call is observed *)
+Inductive wstep :=
+| SNew (own : option Z)                     (* NewMask over the session's key list *)
+| SMask (k : Z) (o : wbop)                   (* SetBit / SetMask / Merge on object k *)
+| SClone (k : Z)                             (* object k cloned; the clone becomes the last object *)
+| SAgg (k : Z) (sigs : list (option Z)).     (* AggregatePublicKeys, AggregateSignatures, Verify on object k *)
+
 Inductive wpol := WComplete | WThreshold (th : Z).
 Definition pol_of (p : wpol) : policy :=
   match p with WComplete => PComplete | WThreshold th => PThreshold th end.
@@ -94,6 +103,7 @@ Inductive case :=
         (vrec : bool)                                (* VerifyRecovered under the group key *)
 | CBdn (id : Z) (g1 exact : bool) (pubs coefs : list Z) (own : option Z) (ops : list wbop)
        (sigs : list (option Z)) (h h2 : Z) (other : list Z) (obs : list Z)
+| CBdnS (id : Z) (g1 exact : bool) (pubs coefs : list Z) (h : Z) (steps : list wstep) (obs : list (list Z))
 | CCosiMask (id : Z) (pubs : list Z) (own : option Z) (ops : list wcop) (obs : list (list Z))
 | CCosiV (id : Z) (pubs : list Z) (tbl : list (Z * Z * Z)) (sig : option (option Z * Z * list Z))
          (pol : wpol) (verdict : bool).
@@ -151,6 +161,45 @@ Definition bdn_obs (g1 exact : bool) (pubs coefs : list Z) (own : option Z) (ops
       [0] ++ map b2z errs ++ to_bytes (bm_bits Q m) ++ [Z.of_nat (bdn_count_enabled Q m)] ++ tail
   end.
 
+(* sessions: in the model aggregation is a function of the mask value and
+   leaves every object unchanged, so each SAgg is evaluated on the current
+   value of its object *)
+Definition bdn_agg_obs (g1 exact : bool) (m : bmask Q) (sigs : list (option Z)) (h : Z) : list Z :=
+  let ap := bdn_agg_pubs Q m in
+  let asg := bdn_agg_sigs Q m (map ofz sigs) in
+  let ex (v : F) := if exact then val v else -1 in
+  [res_code ap; match ap with ROk A => ex A | _ => -1 end;
+   res_code asg; match asg with ROk SG => ex SG | _ => -1 end;
+   match ap, asg with
+   | ROk A, ROk SG => b2z (bls_verify g1 A (fz h) (Some SG))
+   | _, _ => -1
+   end] ++ to_bytes (bm_bits Q m) ++ [Z.of_nat (bdn_count_enabled Q m)].
+
+Fixpoint bdn_session (g1 exact : bool) (Hcoef : list F -> list F) (ps : list F) (h : Z)
+         (objs : list (bmask Q)) (steps : list wstep) : list (list Z) :=
+  match steps with
+  | [] => []
+  | st :: rest =>
+      let dflt := mkB Q [] [] None None in
+      match st with
+      | SNew own =>
+          match bdn_new_mask Q Hcoef ps (ofz own) with
+          | Some m => [0] :: bdn_session g1 exact Hcoef ps h (objs ++ [m]) rest
+          | None => [1] :: bdn_session g1 exact Hcoef ps h objs rest
+          end
+      | SMask k o =>
+          let i := Z.to_nat k in
+          let '(m', e) := bdn_step Q (nth i objs dflt) (bop_of o) in
+          [b2z e] :: bdn_session g1 exact Hcoef ps h (set_nth i m' objs) rest
+      | SClone k =>
+          let '(m', _) := bdn_step Q (nth (Z.to_nat k) objs dflt) BClone in
+          [0] :: bdn_session g1 exact Hcoef ps h (objs ++ [m']) rest
+      | SAgg k sigs =>
+          bdn_agg_obs g1 exact (nth (Z.to_nat k) objs dflt) sigs h
+          :: bdn_session g1 exact Hcoef ps h objs rest
+      end
+  end.
+
 (* ------------------------------------------------------------------ CoSi *)
 Definition cosi_obs1 (r : res (cmask Q)) : list Z :=
   match r with
@@ -196,6 +245,9 @@ Definition check (c : case) : option Z :=
       if check_tbls g1 exact commits h t parts vp status value vrec then None else Some id
   | CBdn id g1 exact pubs coefs own ops sigs h h2 other obs =>
       if zlist_eqb (bdn_obs g1 exact pubs coefs own ops sigs h h2 other) obs then None else Some id
+  | CBdnS id g1 exact pubs coefs h steps obs =>
+      if zll_eqb (bdn_session g1 exact (fun _ => map fz coefs) (map fz pubs) h [] steps) obs
+      then None else Some id
   | CCosiMask id pubs own ops obs =>
       if zll_eqb (cosi_mask_obs pubs own ops) obs then None else Some id
   | CCosiV id pubs tbl sig pol verdict =>
